@@ -5,15 +5,24 @@ import "verif/internal/eng"
 func init() {
 	register(&Property{
 		ID: "C49",
-		Explanation: "Decides totality (no crash), not exactness: (parser-no-panic) for every parser of user-supplied text — all pflag.Value.Set implementations of the module and the named parsers (ParseDuration, ParseBytes, stringToIntSlice, parsePercentage, options.Parse/Apply, SplitShellStrings, checkFlags, verifyForgetOptions, verifyPruneOptions) — no function in its call closure contains a panic whose operand carries an error value (the `panic(err)` pattern that turns a failed conversion of the input into a crash); frozen exception: options.Apply's developer-error panics on malformed struct tags. This rule reported the genuine defect in data.nextNumber (range error of strconv.Atoi), now fixed; (strconv-errors) the error of every strconv.Parse*/Atoi in the parsers is examined; (bitsize-agreement) the bit size of every ParseInt/ParseUint fits the type its result is converted to, and ParseBytes returns a value only on the high-word==0 and value>=0 edges of its bits.Mul64 product; (apply-exhaustive) every option struct handed to options.Register/Apply has only `option` fields of kinds Apply's switch handles. Not decided: that accepted values denote exactly the parsed number and that durations print back to an equal value.",
+		Explanation: "Decides totality (no crash), not exactness: (parser-no-panic) for every parser of user-supplied text — all pflag.Value.Set implementations of the module and the named parsers (ParseDuration, ParseBytes, stringToIntSlice, parsePercentage, options.Parse/Apply, SplitShellStrings, checkFlags, verifyForgetOptions, verifyPruneOptions) — no function in its call closure contains a panic whose operand carries an error value (the `panic(err)` pattern that turns a failed conversion of the input into a crash); frozen exception: options.Apply's developer-error panics on malformed struct tags. This rule reported the genuine defect in data.nextNumber (range error of strconv.Atoi), now fixed; (strconv-errors) the error of every strconv.Parse*/Atoi in the parsers is examined; (bitsize-agreement) the bit size of every ParseInt/ParseUint fits the type its result is converted to, and ParseBytes returns a value only on the high-word==0 and value>=0 edges of its bits.Mul64 product; (apply-exhaustive) every option struct handed to options.Register/Apply has only `option` fields of kinds Apply's switch handles; (decimal-base) every ParseInt/ParseUint of the command layer uses the constant base 10 (named exception: extended options) — added after a seeded change that read --keep-last 010 as 8; (float-not-nan) a value parsed with ParseFloat is used only behind math.IsNaN false or an ordered comparison that held — NaN passed the range checks of --read-data-subset and --max-unused (genuine defect, fixed); (duration-parse) ParseDuration assigns each unit behind a not-seen-before test and the hours behind a constant range test — hours beyond 2562047 overflowed time.Duration when the policy was applied and forget --keep-within removed every snapshot, a repeated unit kept only the last number (genuine defects, demonstrated, fixed). Not decided: that accepted values denote exactly the parsed number and that durations print back to an equal value.",
 		Assumptions: commonAssumptions,
 		Technique:   "static analysis: call-closure scan for error-carrying panics + bit-size/type agreement + CFG edge cuts (go/ssa)",
 		Run: func(c *eng.Ctx) {
 			ruleParserNoPanic(c)
 			ruleBitsize(c)
 			ruleApplyExhaustive(c)
+			ruleParseBase(c)
+			ruleFloatNotNaN(c)
+			ruleDurationParse(c)
 		},
 		Controls: []Control{
+			{Name: "check-subset-percentage-nan", File: "cmd/restic/cmd_check.go",
+				Old: "	if math.IsNaN(p) {\n		return 0, errors.Errorf(\"parsePercentage: %q is not a number\", s)\n	}\n", New: "	_ = math.NaN\n", Rule: "float-not-nan"},
+			{Name: "pack-size-env-any-base", File: "internal/global/global.go",
+				Old: "strconv.ParseUint(envVal, 10, 32)", New: "strconv.ParseUint(envVal, 0, 32)", Rule: "decimal-base"},
+			{Name: "hours-unbounded", File: "internal/data/duration.go",
+				Old: "			if int64(num) > maxHours || int64(num) < -maxHours {", New: "			if int64(num) < -maxHours {", Rule: "duration-parse"},
 			{Name: "atoi-range-error-panics", File: "internal/data/duration.go",
 				Old: "	num, err = strconv.Atoi(n)\n	if err != nil {\n		return 0, input, err\n	}", New: "	num, err = strconv.Atoi(n)\n	if err != nil {\n		panic(err)\n	}", Rule: "parser-no-panic"},
 			{Name: "parsebytes-unchecked-multiplication", File: "internal/ui/format.go",
@@ -114,7 +123,7 @@ func init() {
 	})
 	register(&Property{
 		ID: "C47",
-		Explanation: "Decides the structural half of the blob cache contract: (cache-locks) every access to Cache.c, Cache.free and Cache.inProgress holds Cache.mu (evict is the LRU callback and runs inside LRU calls); (lru-calls-locked) every method call on the simplelru instance is made with mu held; (budget-symmetry) `free` is changed only in add (minus the entry's size, after a loop that evicts while size > free, so free stays >= 0) and in evict (plus the evicted entry's size), both sizes computed by the same cap(blob)+overhead expression, and entries larger than the whole cache are refused before anything is evicted; (inprogress-cleanup) GetOrCompute registers the id in inProgress before unlocking, every path that leaves after registration deletes the entry and closes the channel exactly via the deferred function, and waiters re-check the cache after the channel is closed. Not decided: that the LRU library evicts in recency order, and at-most-once computation per id under all interleavings.",
+		Explanation: "Decides the structural half of the blob cache contract: (cache-locks) every access to Cache.c, Cache.free and Cache.inProgress holds Cache.mu (evict is the LRU callback and runs inside LRU calls); (lru-calls-locked) every method call on the simplelru instance is made with mu held; (budget-symmetry) `free` is changed only in add (minus the entry's size, after a loop that evicts while size > free, so free stays >= 0) and in evict (plus the evicted entry's size), both sizes computed by the same cap(blob)+overhead expression, and entries larger than the whole cache are refused before anything is evicted; (inprogress-cleanup) GetOrCompute registers the id in inProgress before unlocking, every path that leaves after registration deletes the entry and closes the channel exactly via the deferred function, and waiters re-check the cache after the channel is closed; (cache-result-provenance, shared with C03) GetOrCompute returns success only on a cache hit — with the cached blob — or with the results of the caller's own computation, and a failed computation is never inserted: a waiter whose peer failed, produced an uncacheable blob or was evicted in between computes the value itself. Not decided: that the LRU library evicts in recency order, and at-most-once computation per id under all interleavings.",
 		Assumptions: commonAssumptions,
 		Technique:   "static analysis: must-hold locksets over guarded fields + enumeration of budget updates + CFG ordering (go/ssa)",
 		Run: func(c *eng.Ctx) {
@@ -122,6 +131,8 @@ func init() {
 			ruleLRUCallsLocked(c)
 			ruleBudget(c)
 			ruleInProgress(c)
+			// a lookup returns the value computed for its id: shared with C03
+			ruleCacheResultProvenance(c)
 		},
 		Controls: []Control{
 			{Name: "evict-once", File: "internal/bloblru/cache.go",
